@@ -66,6 +66,10 @@ CHECKS = {
    "exhaustive enumeration of VSS x structure x group x dealing kind, and inside each of every share alteration x claimed identity and every verification-vector edit x holder, verdicts predicted by a math/big model M*r",
    "Feldman and Pedersen VSS over the catalogue (n<=4, incl. non-ideal structures where a holder owns several MSP rows) on k256, BLS12-381 G1, edwards25519 subgroup, for 1..3 combined dealings and special dealer columns: the honest share of every holder under every identity, every coordinate altered (+1, -1, :=0, := every other coordinate of every holder, drop/append), and every verification-vector edit (entry +-G/+H, :=identity, swap, drop/append identity or G) x every holder; the reference reads M and r out of the library, predicts each verdict from lambda' = M*r' (a holder fails exactly when its rows have a non-zero entry in the edited column), and Verify / NewBaseShard must agree; V1*V2(*V3) verifies exactly share1+share2(+share3); ReconstructInTheExponent over every qualified subset == V[0].",
    "Trusts math/big and the Pedersen trapdoor key the harness knows; n > 4 and cancelling share+vector forgeries (need a discrete log) are outside.", "DESIGN §5 C05"),
+ "C15": ("CT", "fault_enumeration",
+   "exhaustive enumeration of scheme x variant x key x message x every single-component alteration of (message, signature, key), accept/reject compared with independent verifiers (crypto/ecdsa, math/big ECDSA/BIP-340/Schnorr, BLS by definition)",
+   "ECDSA (k256, p256; 6 suites), BIP-340 (+batch), configurable Schnorr on 4 curves x hashes x encodings, Mina, BLS (both key groups x basic / message augmentation / proof of possession) x 3 keys (incl. sk=1, q-1) x 5 messages x every bit of r, s / of the encoded signature, s -> n-s with v flipped/kept/omitted, v alterations, key -> -pk, 2pk, foreign, identity, out-of-subgroup, message flips/append/truncate, PoP alterations: the default and strict verdicts must equal the independent verifier's (incl. the documented equivalent ECDSA form), RecoverPublicKey returns the signing key, Normalise preserves validity; BLS aggregation over signer sets 1..4 x 16 contributor faults (missing, foreign, identity, out-of-subgroup, duplicate, rogue key, PoP missing/foreign/swapped ...) judged by sigma == sum [sk_i] H(m_i); published BIP-340 and BLS vectors replayed through the public API.",
+   "Trusts crypto/ecdsa, math/big, ref/curve, ref/sig; H(m) for BLS and Mina's Poseidon challenge come from the library (C19/C14); no alteration combines two components beyond the documented forms.", "DESIGN §5 C15"),
 }
 NOT_YET = {}
 for i in range(1, 21):
